@@ -840,6 +840,355 @@ fn witnesses(ctx: &mut Ctx) {
         let mut w = DZ(s); let mut m = Model::default(); let rec = &text[45..445]; let id = ctor!(w.0.put(rec), "put"); m.issue(id, rec, "put")?; let r = check_all(c, &w, &m, "put(400 bytes of the training text)"); w.coverage(c); r });
 }
 
+// ---- gap families: constructors / conversions / batch variants / builders the histories above never call -----------------
+use zipora::config::nest_louds_trie::{NestLoudsTrieConfig, OptimizationFlags};
+use zipora::containers::specialized::{FixedLenStrVec, SortableStrVec, ZoSortedStrVec};
+
+fn gap_pool(c: &mut Case, style: u32, maxn: usize, maxlen: usize) -> Vec<Vec<u8>> { let n = 4 + c.rng.usize_below(maxn); let pool = mk_pool(&mut c.rng, style, n, maxlen); record_pool(c, style, &pool); pool }
+/// distinct non-empty printable ascii strings (<= 12 bytes) sharing prefixes
+fn gap_strings(c: &mut Case, n: usize) -> Vec<String> {
+    let mut set = BTreeSet::new(); let stems = ["a", "ab", "abc", "k/", "user:", "zz", "m"];
+    while set.len() < n { let st = *c.rng.pick(&stems); let l = 1 + c.rng.usize_below(6); let mut s = st.to_string(); for _ in 0..l { s.push((b'a' + c.rng.below(6) as u8) as char); } set.insert(s); }
+    let mut v: Vec<String> = set.into_iter().collect(); c.rng.shuffle(&mut v); c.input_str("strings", &v.join(",")); v
+}
+fn gap_nlt_cfg(c: &mut Case) -> NestLoudsTrieConfig {
+    let mut cfg = NestLoudsTrieConfig::default(); cfg.enable_statistics = c.rng.chance(3, 4); if !cfg.enable_statistics { c.tag("statistics_disabled"); } cfg.node_cache_size = *c.rng.pick(&[0usize, 4096, 65536]); cfg.initial_pool_size = 0;
+    let which = c.rng.below(5); let mut fl = OptimizationFlags::default();
+    match which { 0 => {}, 1 => fl |= OptimizationFlags::ENABLE_FAST_SEARCH, 2 => cfg.enable_queue_compression = true, 3 => fl |= OptimizationFlags::ENABLE_CACHE_OPTIMIZATION | OptimizationFlags::ENABLE_PARALLEL_CONSTRUCTION, _ => fl |= OptimizationFlags::USE_HUGEPAGES }
+    cfg.optimization_flags = fl; c.input_str("nlt_cfg", &format!("variant {which} node_cache_size {}", cfg.node_cache_size)); cfg
+}
+/// a store whose records were put with key == value: record i = strings[i] under id i, and every key answers
+fn gap_check_key_is_value(c: &mut Case, t: Trie, expect: &[Vec<u8>], at: &str) -> Res {
+    let mut m = Model::default(); let mut km = KeyModel::default();
+    for (i, k) in expect.iter().enumerate() { m.issue(i as u32, k, at)?; km.latest.insert(k.clone(), (i as u32, k.clone())); km.key_of.insert(i as u32, k.clone()); }
+    c.set_nontrivial(expect.len() >= 2);
+    let w = BBI(t); check_all(c, &w, &m, at)?; check_batch_iter(c, &w, &m, at)?; let mut t = w.0;
+    check_keys(c, &mut t, &km, at, true)?; gap_keys_with_prefix(c, &t, &km, at)
+}
+fn gap_keys_with_prefix(c: &mut Case, t: &Trie, km: &KeyModel, at: &str) -> Res {
+    let mut prefixes: Vec<Vec<u8>> = vec![vec![], b"zq".to_vec()]; for k in km.latest.keys().take(30) { if !k.is_empty() { let l = c.rng.usize_below(k.len() + 1); prefixes.push(k[..l].to_vec()); } }
+    prefixes.sort(); prefixes.dedup(); if prefixes.len() > 6 { c.rng.shuffle(&mut prefixes); prefixes.truncate(6); }
+    for pfx in prefixes {
+        if km.tainted.iter().any(|k| k.starts_with(&pfx)) { continue; }
+        let want: Vec<Vec<u8>> = km.latest.keys().filter(|k| k.starts_with(&pfx)).cloned().collect();
+        match t.keys_with_prefix(&pfx) { Ok(got) => { ensure!(got == want, "keys_with_prefix_mismatch", "{at}: keys_with_prefix({}) returned {} keys {:?} want {} {:?}", ab(&pfx), got.len(), got.iter().map(|k| ab(k)).collect::<Vec<_>>(), want.len(), want.iter().map(|k| ab(k)).collect::<Vec<_>>()); c.ev(1); }
+            Err(e) => return Err(bad("keys_with_prefix_err", format!("{at}: keys_with_prefix({}) failed: {e}", ab(&pfx)))) }
+    }
+    Ok(())
+}
+
+fn gap_targets(ctx: &mut Ctx) {
+    // --- MemoryBlobStore: with_capacity / from_data / reserve / shrink_to_fit / clear -------------------------------------
+    for idx in 0..ctx.n(24, 400) as u64 {
+        let style = (idx % STYLES as u64) as u32;
+        ctx.case("memory", "gap_ctor_clear", idx, |c| {
+            let pool = gap_pool(c, style, 16, 2048); let mut m = Model::default();
+            let store = if c.rng.bool() { let cap = *c.rng.pick(&[0usize, 1, 7, 64, 1000]); c.input_str("ctor", &format!("with_capacity({cap})")); MemoryBlobStore::with_capacity(cap) } else {
+                let k = c.rng.usize_below(12); let mut data: BTreeMap<u32, Vec<u8>> = BTreeMap::new();
+                for _ in 0..k { let id = if c.rng.chance(1, 4) { c.rng.below(4) as u32 } else { c.rng.below(100000) as u32 }; data.insert(id, pool[c.rng.usize_below(pool.len())].clone()); }
+                c.input_str("ctor", &format!("from_data({:?})", data.iter().map(|(i, r)| (*i, r.len())).collect::<Vec<_>>()));
+                for (id, rec) in &data { m.issue(*id, rec, "from_data")?; }
+                MemoryBlobStore::from_data(data.into_iter().collect()) };
+            let mut s = BBI(store);
+            pre("ctor_", check_all(c, &s, &m, "after constructor"))?;
+            for _ in 0..3 {
+                history(c, &mut s, &mut m, &pool, PROF, 25)?;
+                let what = match c.rng.below(3) { 0 => { let k = c.rng.usize_below(300); s.0.reserve(k); "reserve" } 1 => { s.0.shrink_to_fit(); "shrink_to_fit" } _ => { s.0.reserve(5); s.0.shrink_to_fit(); "reserve+shrink_to_fit" } };
+                let _ = s.0.capacity();
+                pre("resized_", check_all(c, &s, &m, &format!("after {what}")))?; pre("resized_", check_batch_iter(c, &s, &m, &format!("after {what}")))?;
+            }
+            s.0.clear(); let ids: Vec<u32> = m.live.keys().copied().collect(); for id in ids { m.unissue(id); }
+            pre("cleared_", check_all(c, &s, &m, "after clear()"))?; pre("cleared_", check_batch_iter(c, &s, &m, "after clear()"))?;
+            pre("cleared_", history(c, &mut s, &mut m, &pool, PROF, 30))
+        });
+        // --- compression wrappers: with_default_compression / inner / inner_mut / into_inner -> re-wrap ---------------------
+        ctx.case("zstd_mem", "gap_into_inner_rewrap", idx, |c| {
+            let pool = gap_pool(c, style, 16, 4096);
+            let mut s = BBI(ZstdBlobStore::with_default_compression(MemoryBlobStore::new())); let mut m = Model::default(); c.note("default_level", s.0.compression_level() as u64);
+            history(c, &mut s, &mut m, &pool, PROF, 40)?;
+            if s.0.inner().len() != m.live.len() { c.note("inner_len_differs", 1); }
+            // a record put through inner_mut() bypasses compression: its id must not collide with a live one (the read side is left open)
+            let lvl = *c.rng.pick(&[1i32, 3, 9, -3]); c.input_str("rewrap_level", &lvl.to_string());
+            let inner = s.0.into_inner();
+            let mut s2 = BBI(ZstdBlobStore::new(inner, lvl));
+            pre("rewrap_", check_all(c, &s2, &m, "after into_inner() + ZstdBlobStore::new"))?;
+            let _ = s2.0.inner_mut().flush();
+            pre("rewrap_", history(c, &mut s2, &mut m, &pool, PROF, 30))
+        });
+        ctx.case("lz4_mem", "gap_into_inner_rewrap", idx, |c| {
+            let pool = gap_pool(c, style, 16, 4096);
+            let mut s = B(Lz4BlobStore::new(MemoryBlobStore::new())); let mut m = Model::default();
+            history(c, &mut s, &mut m, &pool, PROF, 40)?;
+            if s.0.inner().len() != m.live.len() { c.note("inner_len_differs", 1); }
+            let mut s2 = B(Lz4BlobStore::new(s.0.into_inner()));
+            pre("rewrap_", check_all(c, &s2, &m, "after into_inner() + Lz4BlobStore::new"))?;
+            pre("rewrap_", history(c, &mut s2, &mut m, &pool, PROF, 30))
+        });
+        // --- CachedBlobStore: two stores over one shared LruPageCache (with_cache / with_cache_and_strategy) -------------------
+        ctx.case("cached_shared", "gap_shared_cache", idx, |c| {
+            let pool = gap_pool(c, style, 16, 6000); let cfg = cache_cfg(c);
+            let cache = std::sync::Arc::new(ctor!(zipora::cache::LruPageCache::new(cfg), "LruPageCache::new"));
+            let strat = *c.rng.pick(&[CacheWriteStrategy::WriteThrough, CacheWriteStrategy::WriteBack, CacheWriteStrategy::WriteAround]); c.input_str("strategy_b", &format!("{strat:?}"));
+            let mut a = B(ctor!(CachedBlobStore::with_cache(MemoryBlobStore::new(), cache.clone()), "with_cache"));
+            let mut b = B(ctor!(CachedBlobStore::with_cache_and_strategy(MemoryBlobStore::new(), cache.clone(), strat), "with_cache_and_strategy"));
+            ensure!(b.0.write_strategy() == strat, "write_strategy", "with_cache_and_strategy({strat:?}) reports {:?}", b.0.write_strategy());
+            let (mut ma, mut mb) = (Model::default(), Model::default());
+            for _ in 0..3 { pre("a_", history(c, &mut a, &mut ma, &pool, PROF, 14))?; pre("b_", history(c, &mut b, &mut mb, &pool, PROF, 14))?; }
+            pre("a_", check_all(c, &a, &ma, "final"))?; let _ = a.0.cache_stats(); Ok(())
+        });
+        // --- CachedBlobStore: enable/disable, strategy switches, inherent flush, prefetch_range in the middle of a history ------
+        ctx.case("cached_toggle", "gap_toggle_strategy", idx, |c| {
+            let pool = gap_pool(c, style, 16, 6000); let cfg = cache_cfg(c);
+            let mut s = B(ctor!(CachedBlobStore::new(MemoryBlobStore::new(), cfg), "CachedBlobStore::new")); let mut m = Model::default(); let mut trace = String::new();
+            for _ in 0..5 {
+                history(c, &mut s, &mut m, &pool, PROF, 12)?;
+                let what = match c.rng.below(5) {
+                    0 => { s.0.disable_cache(); "disable_cache".to_string() } 1 => { s.0.enable_cache(); "enable_cache".to_string() }
+                    2 => { let st = *c.rng.pick(&[CacheWriteStrategy::WriteThrough, CacheWriteStrategy::WriteBack, CacheWriteStrategy::WriteAround]); s.0.set_write_strategy(st); ensure!(s.0.write_strategy() == st, "write_strategy", "set_write_strategy({st:?}) then write_strategy()={:?}", s.0.write_strategy()); format!("set_write_strategy({st:?})") }
+                    3 => { match catch(|| s.0.flush()) { Ok(r) => { if r.is_err() { c.note("flush_err", 1); } } Err(p) => return Err(bad("flush_panic", format!("flush() panicked at {}: {}", p.loc, p.msg))) } "flush".to_string() }
+                    _ => { let off = c.rng.below(20000); let len = c.rng.usize_below(9000); match catch(|| s.0.prefetch_range(off, len)) { Ok(r) => { if r.is_err() { c.note("prefetch_err", 1); } } Err(p) => return Err(bad("prefetch_panic", format!("prefetch_range({off}, {len}) panicked at {}: {}", p.loc, p.msg))) } format!("prefetch_range({off},{len})") } };
+                trace.push_str(&what); trace.push(' ');
+                if s.0.inner().len() != m.live.len() { c.note("inner_len_differs", 1); }
+                pre("toggled_", check_all(c, &s, &m, &format!("after {what}")))?;
+            }
+            c.input_str("toggles", &trace);
+            pre("toggled_", history(c, &mut s, &mut m, &pool, PROF, 15))
+        });
+    }
+    // --- SimpleZipConfig::builder() == struct literal; MixedLen fixed/variable split queries; empty ZipOffsetBlobStore::new() -----
+    for idx in 0..ctx.n(24, 500) as u64 {
+        let style = (idx % STYLES as u64) as u32;
+        ctx.case("simplezip/custom", "gap_config_builder", idx, |c| {
+            let mn = c.rng.usize_below(12); let mx = if c.rng.chance(1, 8) { mn.saturating_sub(1) } else { mn + c.rng.usize_below(200) }; let nd = c.rng.usize_below(5); let delims: Vec<u8> = (0..nd).map(|_| *c.rng.pick(&[b' ', b'\n', 0u8, b'a', 0xff, b'e'])).collect();
+            let mut b = SimpleZipConfig::builder(); let (mut smn, mut smx, mut sd) = (false, false, false);
+            if c.rng.chance(3, 4) { b = b.min_frag_len(mn); smn = true; } if c.rng.chance(3, 4) { b = b.max_frag_len(mx); smx = true; } if c.rng.chance(3, 4) { b = b.delimiters(delims.clone()); sd = true; }
+            c.input_str("builder", &format!("min {:?} max {:?} delims {:?}", smn.then_some(mn), smx.then_some(mx), sd.then_some(&delims)));
+            let recs = bulk_records(c, style); if recs.is_empty() { c.tag("empty_store"); }
+            let cfg = match b.build() { Ok(k) => k, Err(e) => { c.note("cfg_build_refused", 1); c.log(format!("build: {e}")); return Ok(()); } };
+            let d = SimpleZipConfig::default();
+            let lit = SimpleZipConfig { min_frag_len: if smn { mn } else { d.min_frag_len }, max_frag_len: if smx { mx } else { d.max_frag_len }, delimiters: if sd { delims.clone() } else { d.delimiters.clone() } };
+            ensure!(cfg.min_frag_len == lit.min_frag_len && cfg.max_frag_len == lit.max_frag_len && cfg.delimiters == lit.delimiters, "config_builder_mismatch", "builder produced {cfg:?}, the setters / defaults say {lit:?}");
+            let store = match SimpleZipBlobStore::build_from(&recs, &cfg) { Ok(s) => s, Err(e) => { c.note("build_err", 1); c.log(format!("build: {e}")); return Ok(()); } };
+            c.set_nontrivial(recs.len() >= 2); let ids: Vec<u32> = (0..recs.len() as u32).collect();
+            check_bulk(c, &mut BBI(store), &ids, &recs, "built store (config from builder)")
+        });
+        ctx.case(if idx % 2 == 0 { "mixedlen/auto" } else { "mixedlen/fixed" }, "gap_fixed_split", idx / 2, |c| {
+            let recs = bulk_records(c, style); if recs.is_empty() { c.tag("empty_store"); }
+            let store = if idx % 2 == 0 { MixedLenBlobStore::build_from(&recs) } else { let fl = if recs.is_empty() || c.rng.chance(1, 4) { c.rng.usize_below(40) } else { recs[c.rng.usize_below(recs.len())].len() }; c.input_str("fixed_len", &fl.to_string()); MixedLenBlobStore::build_from_with_fixed_len(&recs, fl) };
+            let store = match store { Ok(s) => s, Err(e) => { c.note("build_err", 1); c.log(format!("build: {e}")); return Ok(()); } };
+            c.set_nontrivial(recs.len() >= 2);
+            // the split is a partition of the ids: a record flagged fixed-length has the dominant length; flags and counts agree
+            let fl = store.fixed_len(); let mut nfixed = 0usize;
+            for (i, r) in recs.iter().enumerate() { if store.is_fixed_length(i as u32) { nfixed += 1; ensure!(r.len() == fl, "fixed_flag_len", "is_fixed_length({i}) is true but the record has {} bytes and fixed_len()={fl}", r.len()); } c.ev(1); }
+            ensure!(nfixed == store.fixed_count() && recs.len() - nfixed == store.variable_count(), "fixed_count", "{nfixed} of {} ids are flagged fixed-length but fixed_count()={} variable_count()={}", recs.len(), store.fixed_count(), store.variable_count());
+            for id in [recs.len() as u32, recs.len() as u32 + 1, u32::MAX] { ensure!(!store.is_fixed_length(id), "fixed_flag_absent", "is_fixed_length({id}) true for a never-issued id"); }
+            let ids: Vec<u32> = (0..recs.len() as u32).collect();
+            check_bulk(c, &mut BBI(store), &ids, &recs, "built store")
+        });
+    }
+    for idx in 0..ctx.n(6, 60) as u64 {
+        ctx.case("zipoffset/empty", "gap_new_empty", idx, |c| {
+            let which = ["new", "default", "perf", "comp", "sec", "custom"][(idx % 6) as usize]; c.input_str("ctor", which);
+            let mut store = if which == "new" { ctor!(ZipOffsetBlobStore::new(), "ZipOffsetBlobStore::new") } else { let cfg = zo_cfg(c, which); ctor!(ZipOffsetBlobStore::with_config(cfg), "ZipOffsetBlobStore::with_config") };
+            if c.rng.bool() { store.enable_offset_cache(); c.input_str("offset_cache", "enabled"); }
+            let mut w = B(store); check_bulk(c, &mut w, &[], &[], "empty store")?;
+            w.0.enable_offset_cache(); check_bulk(c, &mut w, &[], &[], "empty store, offset cache enabled")?;
+            zo_roundtrip(c, &w.0, &[], &[])
+        });
+    }
+    // --- ZipOffset builders: add_records == add_record*, builder len / is_empty / validate ------------------------------------
+    for idx in 0..ctx.n(16, 300) as u64 {
+        let style = (idx % STYLES as u64) as u32; let which = ["default", "perf", "comp", "sec", "custom"][(idx % 5) as usize];
+        ctx.case(&format!("zipoffset/{which}"), "gap_add_records", idx / 5, |c| {
+            let cfg = zo_cfg(c, which); let recs = bulk_records(c, style); if !recs.is_empty() { c.tag("nonempty_input"); } tag_suv_span(c, &cfg.offset_config, recs.len() + 1);
+            let mut b = ctor!(ZipOffsetBlobStoreBuilder::with_config(cfg), "ZipOffsetBlobStoreBuilder");
+            ensure!(b.is_empty() && b.len() == 0, "builder_len", "fresh builder: len()={} is_empty()={}", b.len(), b.is_empty());
+            let _ = b.reserve(recs.len());
+            let cut = c.rng.usize_below(recs.len() + 1); c.input_str("cut", &cut.to_string());
+            let mut ids = match b.add_records(recs[..cut].iter()) { Ok(v) => v, Err(e) => { c.note("add_record_err", 1); c.log(format!("add_records: {e}")); return Ok(()); } };
+            ensure!(ids.len() == cut, "add_records_len", "add_records of {cut} records returned {} ids", ids.len());
+            for r in &recs[cut..] { match b.add_record(r) { Ok(id) => ids.push(id), Err(_) => { c.note("add_record_err", 1); return Ok(()); } } }
+            for (i, id) in ids.iter().enumerate() { ensure!(*id as usize == i, "bulk_id_order", "record #{i} got id {id} (add_records for the first {cut})"); }
+            ensure!(b.len() == recs.len() && b.is_empty() == recs.is_empty(), "builder_len", "after {} records: builder len()={} is_empty()={}", recs.len(), b.len(), b.is_empty());
+            if let Err(e) = b.validate() { return Err(bad("builder_validate", format!("validate() of a builder that accepted every record failed: {e}"))); }
+            let _ = (b.content_size(), b.estimated_size(), b.stats().record_count);
+            let mut store = match b.finish() { Ok(s) => B(s), Err(e) => { c.note("finish_err", 1); c.log(format!("finish: {e}")); return Ok(()); } };
+            c.set_nontrivial(recs.len() >= 2);
+            check_bulk(c, &mut store, &ids, &recs, "built store")
+        });
+        ctx.case(&format!("zipoffset_batch/{which}"), "gap_builder_len", idx / 5, |c| {
+            let cfg = zo_cfg(c, which); let bs = *c.rng.pick(&[1usize, 2, 3, 8, 64]); c.input_str("batch_size", &bs.to_string());
+            let recs = bulk_records(c, style); if !recs.is_empty() { c.tag("nonempty_input"); }
+            let mut b = ctor!(BatchZipOffsetBlobStoreBuilder::with_config(cfg, bs), "BatchZipOffsetBlobStoreBuilder");
+            ensure!(b.is_empty() && b.len() == 0, "builder_len", "fresh builder: len()={} is_empty()={}", b.len(), b.is_empty());
+            for (i, r) in recs.iter().enumerate() { if b.add_record(r).is_err() { c.note("add_record_err", 1); return Ok(()); }
+                // len() of the batch builder is documented as "number of records added" but counts a flushed batch once: the statement is about stores, so this is a note
+                if b.len() != i + 1 { c.note("batch_builder_len_differs", 1); }
+                ensure!(!b.is_empty(), "builder_is_empty", "after {} records (batch size {bs}): builder is_empty()", i + 1); c.ev(1); }
+            c.set_nontrivial(recs.len() >= 2); let _ = b.stats().record_count;
+            Ok(())
+        });
+    }
+    // --- SortedUintVec: new() / builder new() + extend == push* ----------------------------------------------------------------
+    for idx in 0..ctx.n(24, 500) as u64 {
+        ctx.case("suv/default", "gap_extend", idx, |c| {
+            let n = if c.rng.chance(2, 3) { *c.rng.pick(BULK_NS) + 1 } else { 1 + c.rng.usize_below(600) };
+            let mut vals: Vec<u64> = Vec::with_capacity(n); let mut cur = c.rng.below(1 << 20); for _ in 0..n { vals.push(cur); cur += c.rng.below(if n > 200 { 200 } else { 900 }); }
+            let bytes: Vec<u8> = vals.iter().flat_map(|v| v.to_le_bytes()).collect(); c.input("values_le", &bytes);
+            let e = ctor!(SortedUintVec::new(), "SortedUintVec::new"); ensure!(e.len() == 0 && e.is_empty(), "suv_len", "new(): len()={} is_empty()={}", e.len(), e.is_empty()); ensure!(e.get(0).is_err(), "suv_get_oob", "get(0) on an empty vector returned Ok");
+            let cfg = SortedUintVecConfig::default(); let bsz = cfg.block_size(); let mut delta_over = false;
+            for (i, v) in vals.iter().enumerate() { if v - vals[i - i % bsz] >= (1u64 << cfg.offset_width) { delta_over = true; } } if delta_over { c.tag("delta_exceeds_offset_width"); }
+            let mut b = SortedUintVecBuilder::new(); ensure!(b.is_empty() && b.len() == 0, "suv_builder_len", "fresh builder len()={}", b.len());
+            let cut = c.rng.usize_below(n + 1); c.input_str("cut", &cut.to_string());
+            if let Err(e) = b.extend(vals[..cut].iter().copied()) { return Err(bad("suv_push_err", format!("extend of {cut} non-decreasing values failed: {e}"))); }
+            for v in &vals[cut..] { if let Err(e) = b.push(*v) { return Err(bad("suv_push_err", format!("push({v}) of a non-decreasing value failed: {e}"))); } }
+            ensure!(b.len() == n && !b.is_empty(), "suv_builder_len", "builder len()={} after {n} values", b.len());
+            let sv = match b.finish() { Ok(s) => s, Err(e) => { if delta_over { c.note("finish_err_width", 1); return Ok(()); } return Err(bad("suv_finish_err", format!("finish failed although every delta fits: {e}"))); } };
+            c.set_nontrivial(n >= 2); ensure!(sv.len() == n && !sv.is_empty(), "suv_len", "len()={} is_empty()={} want {n}", sv.len(), sv.is_empty());
+            for i in 0..n { match sv.get(i) { Ok(v) if v == vals[i] => {}, other => return Err(bad("suv_get", format!("get({i})={other:?} want {} (n={n}, extend of the first {cut})", vals[i]))) } c.ev(1); }
+            Ok(())
+        });
+    }
+    // --- trie store: put_batch_with_keys, keys_with_prefix, builder conveniences, build_from_* ----------------------------------
+    for idx in 0..ctx.n(30, 600) as u64 {
+        let style = (idx % STYLES as u64) as u32; let which = ["default", "perf", "sec"][(idx % 3) as usize];
+        ctx.case(&format!("trie_keys/{which}"), "gap_put_batch_with_keys", idx / 3, |c| {
+            let pool = gap_pool(c, style, 14, 600); let kmode = c.rng.below(2) as u32; c.input_str("keymode", &kmode.to_string());
+            // the same configuration through TrieBlobStoreConfig::builder()
+            let base = trie_cfg(which); let via_builder = c.rng.bool(); c.input_str("cfg_via_builder", &via_builder.to_string());
+            let cfg = if via_builder { ctor!(TrieBlobStoreConfig::builder().trie_config(base.trie_config.clone()).blob_config(base.blob_config.clone()).memory_config(base.memory_config.clone()).key_compression(base.enable_key_compression).batch_optimization(base.enable_batch_optimization).key_cache_size(base.key_cache_size).statistics(base.enable_statistics).build(), "TrieBlobStoreConfigBuilder::build") } else { base };
+            let mut t = BBI(if which == "default" && !via_builder && c.rng.bool() { ctor!(Trie::default(), "default") } else { ctor!(Trie::new(cfg), "new") });
+            let mut m = Model::default(); let mut km = KeyModel::default(); let mut serial = 0usize; let mut ktrace = Vec::new();
+            for round in 0..4 {
+                let k = c.rng.usize_below(7); let mut entries: Vec<(Vec<u8>, Vec<u8>)> = Vec::new();
+                for _ in 0..k { serial += 1; let key = trie_key(&mut c.rng, kmode, serial); tag_keys(c, &key); ktrace.extend_from_slice(&key); ktrace.push(b'|'); entries.push((key, pool[c.rng.usize_below(pool.len())].clone())); }
+                let at = format!("round {round}: put_batch_with_keys({k} entries)");
+                match t.0.put_batch_with_keys(entries.clone()) {
+                    Ok(ids) => { ensure!(ids.len() == k, "put_batch_len", "{at} returned {} ids", ids.len()); for (i, (key, data)) in entries.into_iter().enumerate() { m.issue(ids[i], &data, &at)?; km.latest.insert(key.clone(), (ids[i], data)); km.key_of.insert(ids[i], key); } }
+                    Err(e) => { c.note("put_batch_err_stop", 1); c.log(format!("{at}: {e}")); return Ok(()); } }
+                check_all(c, &t, &m, &at)?; check_keys(c, &mut t.0, &km, &at, true)?; gap_keys_with_prefix(c, &t.0, &km, &at)?;
+                // a single put_with_key and a removal in between
+                serial += 1; let key = trie_key(&mut c.rng, kmode, serial); let data = pool[c.rng.usize_below(pool.len())].clone(); ktrace.extend_from_slice(&key); ktrace.push(b'|');
+                if let Ok(id) = t.0.put_with_key(&key, &data) { m.issue(id, &data, "put_with_key")?; km.latest.insert(key.clone(), (id, data)); km.key_of.insert(id, key); }
+                let live: Vec<u32> = m.live.keys().copied().collect();
+                if !live.is_empty() && c.rng.bool() { let id = *c.rng.pick(&live); if t.0.remove(id).is_ok() { m.unissue(id); if let Some(k) = km.key_of.remove(&id) { km.latest.remove(&k); } } }
+                let at = format!("round {round}: after put_with_key / remove"); check_all(c, &t, &m, &at)?; check_keys(c, &mut t.0, &km, &at, true)?; gap_keys_with_prefix(c, &t.0, &km, &at)?;
+            }
+            c.input("keys", &ktrace); c.note("key_count", t.0.key_count() as u64); c.set_nontrivial(m.issued.len() >= 2);
+            check_batch_iter(c, &t, &m, "final")
+        });
+        ctx.case(&format!("trie_builder_keys/{which}"), "gap_add_batch_progress", idx / 3, |c| {
+            let cfg = trie_cfg(which); let sorted = cfg.enable_batch_optimization; let kmode = c.rng.below(2) as u32; c.input_str("keymode", &kmode.to_string());
+            let n = if c.rng.bool() { *c.rng.pick(&[0usize, 1, 2, 3, 16, 64, 101, 102]) } else { 1 + c.rng.usize_below(120) };
+            let recs = mk_pool(&mut c.rng, style, n, 300); c.input_str("n", &n.to_string()); record_pool(c, style, &recs);
+            let mut b = if which == "default" && c.rng.bool() { ctor!(Trie::builder_default(), "builder_default") } else { ctor!(Trie::builder(cfg), "builder") };
+            ensure!(b.is_empty() && b.len() == 0, "builder_len", "fresh builder len()={}", b.len()); b.reserve(n); let _ = b.config().key_cache_size;
+            let mut km = KeyModel::default(); let mut order: Vec<(Vec<u8>, Vec<u8>)> = Vec::new(); let mut ktrace = Vec::new();
+            for (i, r) in recs.iter().enumerate() { let key = trie_key(&mut c.rng, kmode, i); ktrace.extend_from_slice(&key); ktrace.push(b'|'); km.latest.insert(key.clone(), (i as u32, r.clone())); order.push((key, r.clone())); }
+            c.input("keys", &ktrace);
+            let cut = c.rng.usize_below(n + 1); c.input_str("cut", &cut.to_string());
+            if let Err(e) = b.add_batch(order[..cut].to_vec()) { return Err(bad("builder_add_err", format!("add_batch of {cut} entries failed: {e}"))); }
+            for (k, v) in &order[cut..] { if let Err(e) = b.add(k, v) { return Err(bad("builder_add_err", format!("add failed: {e}"))); } }
+            ensure!(b.len() == n && b.is_empty() == (n == 0), "builder_len", "builder len()={} after {n} entries", b.len());
+            let mut calls: Vec<(usize, usize)> = Vec::new();
+            let mut t = match catch(|| b.finish_with_progress(|a, b2| calls.push((a, b2)))) { Ok(Ok(t)) => t, Ok(Err(e)) => { c.note("finish_err", 1); c.log(format!("finish_with_progress: {e}")); return Ok(()); } Err(p) => return Err(bad("finish_panic", format!("finish_with_progress of {n} entries panicked at {}: {}", p.loc, p.msg))) };
+            c.set_nontrivial(n >= 2);
+            if n > 0 { ensure!(calls.last() == Some(&(n, n)), "progress_last", "last progress call {:?}, want ({n}, {n})", calls.last()); }
+            for w in calls.windows(2) { ensure!(w[0].0 < w[1].0 && w[1].1 == n, "progress_order", "progress calls not increasing / wrong total: {:?}", calls); }
+            if sorted { order.sort_by(|a, b2| a.0.cmp(&b2.0)); }
+            let mut m = Model::default(); for (i, (_, v)) in order.iter().enumerate() { m.issue(i as u32, v, "builder")?; }
+            let w = BBI(t); check_all(c, &w, &m, "built store")?; check_batch_iter(c, &w, &m, "built store")?; t = w.0;
+            check_keys(c, &mut t, &km, "built store", true)?; gap_keys_with_prefix(c, &t, &km, "built store")?;
+            ensure!(t.is_finalized(), "not_finalized", "finish_with_progress() returned a store that is not finalized"); Ok(())
+        });
+        ctx.case("trie_build_from", ["gap_kv_pairs", "gap_sortable_str_vec", "gap_zo_sorted_str_vec", "gap_fixed_len_str_vec", "gap_vec_u8"][(idx % 5) as usize], idx / 5, |c| {
+            let cfg = gap_nlt_cfg(c); let n = 1 + c.rng.usize_below(40);
+            match idx % 5 {
+                0 => { let strs = gap_strings(c, n); let vals = mk_pool(&mut c.rng, style, n, 300); record_pool(c, style, &vals);
+                    let pairs: Vec<(Vec<u8>, Vec<u8>)> = strs.iter().zip(vals.iter()).map(|(k, v)| (k.clone().into_bytes(), v.clone())).collect();
+                    let t = match Trie::build_from_key_value_pairs(&pairs, &cfg) { Ok(t) => t, Err(e) => { c.note("build_err", 1); c.log(format!("{e}")); return Ok(()); } };
+                    let mut m = Model::default(); let mut km = KeyModel::default(); for (i, (k, v)) in pairs.iter().enumerate() { m.issue(i as u32, v, "build_from_key_value_pairs")?; km.latest.insert(k.clone(), (i as u32, v.clone())); km.key_of.insert(i as u32, k.clone()); }
+                    c.set_nontrivial(n >= 2); let w = BBI(t); check_all(c, &w, &m, "build_from_key_value_pairs")?; check_batch_iter(c, &w, &m, "build_from_key_value_pairs")?; let mut t = w.0;
+                    check_keys(c, &mut t, &km, "build_from_key_value_pairs", true)?; gap_keys_with_prefix(c, &t, &km, "build_from_key_value_pairs")?;
+                    if Trie::build_from_key_value_pairs(&[], &cfg).is_ok() { c.note("empty_pairs_accepted", 1); } Ok(()) }
+                1 => { let strs = gap_strings(c, n); let mut v = SortableStrVec::new(); for s in &strs { if v.push_str(s).is_err() { return Err(bad("__inconclusive", "SortableStrVec::push_str failed".into())); } }
+                    let expect: Vec<Vec<u8>> = (0..v.len()).filter_map(|i| v.get(i).map(|s| s.as_bytes().to_vec())).collect();
+                    let t = match Trie::build_from_sortable_str_vec(&v, &cfg) { Ok(t) => t, Err(e) => { c.note("build_err", 1); c.log(format!("{e}")); return Ok(()); } };
+                    gap_check_key_is_value(c, t, &expect, "build_from_sortable_str_vec") }
+                2 => { let strs = gap_strings(c, n); let v = match ZoSortedStrVec::from_strings(strs) { Ok(v) => v, Err(e) => return Err(bad("__inconclusive", format!("ZoSortedStrVec::from_strings: {e}"))) };
+                    let expect: Vec<Vec<u8>> = (0..v.len()).filter_map(|i| v.get(i).map(|s| s.as_bytes().to_vec())).collect();
+                    let t = match Trie::build_from_zo_sorted_str_vec(&v, &cfg) { Ok(t) => t, Err(e) => { c.note("build_err", 1); c.log(format!("{e}")); return Ok(()); } };
+                    gap_check_key_is_value(c, t, &expect, "build_from_zo_sorted_str_vec") }
+                3 => { let strs = gap_strings(c, n); let mut v: FixedLenStrVec<16> = FixedLenStrVec::new(); for s in &strs { if v.push(s).is_err() { return Err(bad("__inconclusive", "FixedLenStrVec::push failed".into())); } }
+                    let expect: Vec<Vec<u8>> = (0..v.len()).filter_map(|i| v.get(i).map(|s| s.as_bytes().to_vec())).collect();
+                    let t = match Trie::build_from_fixed_len_str_vec(&v, &cfg) { Ok(t) => t, Err(e) => { c.note("build_err", 1); c.log(format!("{e}")); return Ok(()); } };
+                    gap_check_key_is_value(c, t, &expect, "build_from_fixed_len_str_vec") }
+                _ => { let l = 1 + c.rng.usize_below(200); let data: Vec<u8> = (0..l).map(|_| b'a' + c.rng.below(20) as u8).collect(); c.input("data", &data);
+                    let t = match if c.rng.bool() { Trie::build_from_vec_u8(&data, &cfg) } else { Trie::build_from_slice_u8(&data, &cfg) } { Ok(t) => t, Err(e) => { c.note("build_err", 1); c.log(format!("{e}")); return Ok(()); } };
+                    c.set_nontrivial(true); if Trie::build_from_vec_u8(&[], &cfg).is_ok() { c.note("empty_data_accepted", 1); }
+                    gap_check_key_is_value(c, t, &[data.clone()], "build_from_vec_u8") }
+            }
+        });
+    }
+    // --- DictZip: build_from_* constructors, builder setters, dictionary save / load, optimize, iter_blobs_vec -------------------
+    for idx in 0..ctx.n(15, 200) as u64 {
+        let style = [4u32, 2, 0, 5, 1][(idx % 5) as usize]; let fam = ["gap_build_from_samples", "gap_build_from_str_vecs", "gap_builder_setters", "gap_dictionary_file", "gap_build_from_vec_u8"][(idx % 5) as usize];
+        ctx.case("dictzip/gap", fam, idx / 5, |c| {
+            let n = 4 + c.rng.usize_below(10); let pool: Vec<Vec<u8>> = mk_pool(&mut c.rng, style, n, 300).into_iter().filter(|r| !r.is_empty()).collect(); record_pool(c, style, &pool);
+            let mut samples: Vec<Vec<u8>> = pool.iter().filter(|_| c.rng.chance(2, 3)).map(|r| r[..r.len().min(600)].to_vec()).collect();
+            if samples.is_empty() { samples.push(b"the quick brown fox jumps over the lazy dog, the quick brown fox".to_vec()); }
+            let pool = if pool.is_empty() { samples.clone() } else { pool };
+            let d = tempfile::tempdir().map_err(|e| bad("__inconclusive", format!("tempdir: {e}")))?;
+            let refuse = |c: &mut Case, what: &str, e: zipora::error::ZiporaError| -> Fail { c.note("ctor_refused", 1); bad("__inconclusive", format!("{what} refused the training set: {e}")) };
+            let store = match fam {
+                "gap_build_from_samples" => { let cfg = gap_nlt_cfg(c); if DictZipBlobStore::build_from_training_samples(&[], &cfg).is_ok() { c.note("empty_samples_accepted", 1); }
+                    match DictZipBlobStore::build_from_training_samples(&samples, &cfg) { Ok(s) => s, Err(e) => return Err(refuse(c, "build_from_training_samples", e)) } }
+                "gap_build_from_vec_u8" => { let cfg = gap_nlt_cfg(c); let all: Vec<u8> = samples.concat(); match DictZipBlobStore::build_from_vec_u8(&all, &cfg) { Ok(s) => s, Err(e) => return Err(refuse(c, "build_from_vec_u8", e)) } }
+                "gap_build_from_str_vecs" => { let cfg = gap_nlt_cfg(c); let strs = gap_strings(c, 12); let kind = c.rng.below(3); c.input_str("container", &kind.to_string());
+                    let r = match kind { 0 => { let mut v = SortableStrVec::new(); for s in &strs { let _ = v.push_str(s); } DictZipBlobStore::build_from_sortable_str_vec(&v, &cfg) }
+                        1 => match ZoSortedStrVec::from_strings(strs.clone()) { Ok(v) => DictZipBlobStore::build_from_zo_sorted_str_vec(&v, &cfg), Err(e) => return Err(bad("__inconclusive", format!("ZoSortedStrVec::from_strings: {e}"))) },
+                        _ => { let mut v: FixedLenStrVec<16> = FixedLenStrVec::new(); for s in &strs { let _ = v.push(s); } DictZipBlobStore::build_from_fixed_len_str_vec(&v, &cfg) } };
+                    match r { Ok(s) => s, Err(e) => return Err(refuse(c, "build_from_*_str_vec", e)) } }
+                "gap_builder_setters" => {
+                    let mut cfg = DictZipConfig::default().with_cache_size_mb(1 + c.rng.usize_below(2)).with_min_compression_size(*c.rng.pick(&[1usize, 16, 64]));
+                    let ext = c.rng.bool(); if ext { cfg = cfg.with_external_dictionary(d.path().join("ext.dict")); } c.input_str("external_dictionary", &ext.to_string());
+                    let mut b = if ext || c.rng.bool() { ctor!(DictZipBlobStoreBuilder::with_config(cfg), "with_config") } else { ctor!(DictZipBlobStoreBuilder::new(), "DictZipBlobStoreBuilder::new") };
+                    let cut = c.rng.usize_below(samples.len() + 1);
+                    if let Err(e) = b.add_training_samples(samples[..cut].to_vec()) { return Err(bad("ctor_err", format!("add_training_samples of non-empty samples failed: {e}"))); }
+                    let f = d.path().join("train.bin"); let rest: Vec<u8> = samples[cut..].concat();
+                    if !rest.is_empty() { std::fs::write(&f, &rest).map_err(|e| bad("__inconclusive", format!("write: {e}")))?; if let Err(e) = b.add_training_file(&f) { return Err(bad("ctor_err", format!("add_training_file failed: {e}"))); } }
+                    let (ns, nb) = b.training_stats(); c.note("training_samples", ns as u64); c.note("training_bytes", nb as u64);
+                    let (sa, sb, sc) = (c.rng.bool(), c.rng.bool(), c.rng.bool()); let mf = 1 + c.rng.below(3) as u32; c.input_str("setters", &format!("set_dict_size_mb(1):{sa} set_min_frequency({mf}):{sb} enable_advanced_caching:{sc}"));
+                    if sa { let _ = b.set_dict_size_mb(1); } if sb { let _ = b.set_min_frequency(mf); } if sc { let _ = b.enable_advanced_caching(); }
+                    let seen = std::sync::Arc::new(std::sync::atomic::AtomicU64::new(0)); let s2 = seen.clone(); b.set_progress_callback(move |_f| { s2.fetch_add(1, std::sync::atomic::Ordering::Relaxed); });
+                    let s = match b.finish() { Ok(s) => s, Err(e) => return Err(refuse(c, "DictZipBlobStoreBuilder::finish", e)) }; c.note("progress_calls", seen.load(std::sync::atomic::Ordering::Relaxed)); s }
+                _ => { // a dictionary saved by one store and loaded into others
+                    let mut b = ctor!(DictZipBlobStoreBuilder::with_config(DictZipConfig::default()), "with_config"); for s in &samples { let _ = b.add_training_sample(s); }
+                    let s0 = match b.finish() { Ok(s) => s, Err(e) => return Err(refuse(c, "DictZipBlobStoreBuilder::finish", e)) };
+                    let f = d.path().join("dict.bin"); if let Err(e) = s0.save_dictionary(&f) { return Err(bad("save_err", format!("save_dictionary failed: {e}"))); }
+                    if c.rng.bool() { c.input_str("via", "from_dictionary_file"); match DictZipBlobStore::from_dictionary_file(&f, DictZipConfig::default()) { Ok(s) => s, Err(e) => return Err(bad("load_err", format!("from_dictionary_file of a dictionary written by save_dictionary failed: {e}"))) } }
+                    else { c.input_str("via", "load_dictionary"); let mut s1 = s0;
+                        // records put before load_dictionary(): the documentation leaves their fate open (the implementation drops them) -> not asserted
+                        let _ = s1.put(&pool[0]);
+                        if let Err(e) = s1.load_dictionary(&f) { return Err(bad("load_err", format!("load_dictionary of a dictionary written by save_dictionary failed: {e}"))); }
+                        c.note("records_surviving_load_dictionary", s1.len() as u64);
+                        if s1.len() != 0 { return Err(bad("__inconclusive", "load_dictionary kept earlier records: model unknown".into())); } s1 } }
+            };
+            let _ = store.dictionary_stats();
+            let mut s = DZ(store); let mut m = Model::default(); let p = Prof { batch_nonempty: true, max_live: 10, ..PROF };
+            for round in 0..2 {
+                history(c, &mut s, &mut m, &pool, p, 14)?;
+                match s.0.iter_blobs_vec() { Ok(v) => { let got: BTreeMap<u32, Vec<u8>> = v.iter().cloned().collect(); ensure!(got.len() == v.len(), "iter_blobs_dup", "iter_blobs_vec yields an id twice"); ensure!(got == m.live, "iter_blobs_mismatch", "round {round}: iter_blobs_vec returned ids {:?}, live {:?} (or a record differs)", got.keys().collect::<Vec<_>>(), m.live.keys().collect::<Vec<_>>()); c.ev(1); }
+                    Err(e) => return Err(bad("iter_blobs_err", format!("iter_blobs_vec failed with {} live records: {e}", m.live.len()))) }
+                if s.0.validate().is_err() { c.note("validate_err", 1); }
+                match catch(|| s.0.optimize()) { Ok(r) => { if r.is_err() { c.note("optimize_err", 1); } } Err(p) => return Err(bad("optimize_panic", format!("optimize() panicked at {}: {}", p.loc, p.msg))) }
+                pre("optimized_", check_all(c, &s, &m, "after optimize()"))?;
+            }
+            s.coverage(c); Ok(())
+        });
+    }
+}
+
 pub fn run(ctx: &mut Ctx) {
     witnesses(ctx);
     mutable_targets(ctx);
@@ -851,4 +1200,6 @@ pub fn run(ctx: &mut Ctx) {
     MODE.store(0, std::sync::atomic::Ordering::Relaxed);
     huge_bulk_targets(ctx);
     huge_trie_targets(ctx);
+    // families named `gap_*`: API entry points no other family reaches
+    gap_targets(ctx);
 }
